@@ -629,5 +629,17 @@ func runC10(c *ctx, r *Report) error {
 		}
 		r.Rule += "; a third repository with defective callees (action metadata without description / unparseable, reusable workflow unparseable / missing / a directory; the callees are also referenced through needs.<job>.outputs) referenced from three files (steps with and without id:): each callee's own defect exactly once per run for every subset, order and GOMAXPROCS"
 	}
+	// the two derivations of a reusable workflow's interface (file / AST) on generated called workflows: tie to AL.CallMeta
+	// (theorem AL.Props.C10Meta.interface_agrees) and the oracle file == AST on every parser-clean one
+	{
+		n := 1500
+		if !c.quick {
+			n = 60000
+		}
+		if err := cmStandard(c, r, n); err != nil {
+			return err
+		}
+		r.Rule += fmt.Sprintf("; %d generated called workflows (a third well-formed by construction; every spelling of required / default / type / null sections / repeated and unknown keys / on: forms) plus 20 directed ones: interface read from the file (FindMetadata) vs taken from the AST (WriteWorkflowCallEvent) vs the Lean model AL.CallMeta of both (op callmeta); on every one the parser accepts without a diagnostic (no alias / !!binary) the two real interfaces must be equal", n)
+	}
 	return nil
 }
